@@ -162,11 +162,32 @@ pub fn craft_secure(
     ack: Option<u32>,
     payload: &[u8],
 ) -> Vec<u8> {
+    craft_secure_src(key, sess_id, ctr, nonce_node, None, exch_flags, opcode, exch_id, proto_id, ack, payload)
+}
+
+/// As `craft_secure`, optionally with a Source Node ID field in the unencrypted header.
+#[allow(clippy::too_many_arguments)]
+pub fn craft_secure_src(
+    key: &rs_matter::crypto::CanonAeadKey,
+    sess_id: u16,
+    ctr: u32,
+    nonce_node: u64,
+    header_src: Option<u64>,
+    exch_flags: u8,
+    opcode: u8,
+    exch_id: u16,
+    proto_id: u16,
+    ack: Option<u32>,
+    payload: &[u8],
+) -> Vec<u8> {
     use rs_matter::utils::storage::WriteBuf;
-    let mut plain = vec![0u8];
+    let mut plain = vec![if header_src.is_some() { 0x04u8 } else { 0 }];
     plain.extend_from_slice(&sess_id.to_le_bytes());
     plain.push(0);
     plain.extend_from_slice(&ctr.to_le_bytes());
+    if let Some(src) = header_src {
+        plain.extend_from_slice(&src.to_le_bytes());
+    }
     let mut body = vec![exch_flags | if ack.is_some() { 0x02 } else { 0 }, opcode];
     body.extend_from_slice(&exch_id.to_le_bytes());
     body.extend_from_slice(&proto_id.to_le_bytes());
